@@ -349,7 +349,20 @@ pub fn main_loop<C>(
             done: AtomicBool::new(false),
         });
         let mut out = Out::new(tier, args.seed, 0, beat);
-        run_case(0, &case, &mut out, &run);
+        if v.get("replay_mode").and_then(Value::as_str) == Some("history") {
+            // a violation that depends on what ran before it in the same process (state kept between calls):
+            // the enumeration is re-executed in order, on one thread, up to and including case `upto`
+            let upto = v.get("upto").and_then(Value::as_u64).unwrap_or(u64::MAX);
+            let mut idx = 0u64;
+            gen(tier, args.seed, &mut |case: C| {
+                if idx <= upto {
+                    run_case(idx, &case, &mut out, &run);
+                }
+                idx += 1;
+            });
+        } else {
+            run_case(0, &case, &mut out, &run);
+        }
         let res = result_json(property, tier, args.seed, &[out], t0, &extra);
         println!("{}", serde_json::to_string_pretty(&res["violations"]).unwrap());
         let n = res["violations"].as_array().map(|a| a.len()).unwrap_or(0);
